@@ -20,7 +20,7 @@ RULE = ('cases = constructor calls TT(dense, shape?, eps, rmax) on {Gaussian arr
 ASSUMPTIONS = ['exact unfolding ranks are measured by the harness as the number of singular values above 1e-10 (f64) / 1e-5 (f32) relative to the largest',
                '"rmax binding" is decided conservatively: the error clause is skipped whenever some returned rank equals its cap']
 REQUIRED_REACH = ['_decomposition:to_tt', '_decomposition:mat_to_tt', '_decomposition:rank_chop', '_decomposition:SVD', '_tt_base:TT.__init__']
-REQUIRED_COUNTS = {'source:numpy': 1, 'source:torch': 1, 'shape:none': 1, 'shape:tensor': 1, 'shape:operator': 1, 'structure:tall-unfolding': 1, 'rmax:int': 1, 'rmax:list': 1, 'rmax:list-reused-across-calls': 5,
+REQUIRED_COUNTS = {'source:numpy': 1, 'source:torch': 1, 'shape:none': 1, 'shape:tensor': 1, 'shape:operator': 1, 'structure:tall-unfolding': 1, 'rmax:int': 1, 'rmax:list': 1, 'rmax:list-reused-across-calls': 5, 'structure:signal+flat-noise-tail': 4,
                    'truncating_executions': 50, 'breakpoints_bisected': 5, 'executions': 500}
 LINE_FUNCS = ['to_tt', 'mat_to_tt', 'rank_chop', 'SVD']
 CASE_TIMEOUT = {'quick': 120, 'thorough': 300}
@@ -62,6 +62,13 @@ def cases(tier, seed):
         d = rng.choice([2, 3, 3, 4])
         cs.append({'gen': 'random', 'kind': ['gauss', 'lowrank', 'superdiag'][i % 3], 'N': [rng.choice((2, 3, 4, 5)) for _ in range(d)], 'dtype': ['f64', 'c128', 'f64'][i % 3], 'source': ['torch', 'numpy'][i % 2],
                    'shape': ['none', 'tensor'][(i // 2) % 2], 'eps': 10 ** rng.uniform(-10, -1), 'rmax': 'none', 'scale': [1e-17, 1e-30, 1e20][i % 3]})
+    # directed: low-rank signal + a long flat tail of weak noise, rank cap just above the signal rank, eps below the TOTAL noise level but above the energy of the few
+    # noise directions that fit under the cap (whatever is cut must be accounted for in full: either the cap binds or the error stays within eps)
+    for i in range(16 if not T else 160):
+        d = rng.choice([2, 3, 3])
+        n = rng.choice((12, 16, 20)) if d == 3 else rng.choice((24, 40))
+        cs.append({'gen': 'random', 'kind': 'noisy', 'N': [n] * d, 'dtype': ['f64', 'c128', 'f64', 'f32'][i % 4], 'source': ['torch', 'numpy'][i % 2], 'shape': ['none', 'tensor'][(i // 2) % 2],
+                   'eps': None, 'eps_over_noise': [0.4, 0.6, 0.25][i % 3], 'rmax': ['int', 'list'][(i // 4) % 2], 'cap_extra': 1 + (i // 8) % 3, 'rs': rng.choice((1, 2, 3))})
     # adaptive stress: breakpoints
     for i in range(200 if not T else 3000):
         d = rng.choice([2, 2, 3, 3, 4, 5])
@@ -104,6 +111,13 @@ def make_input(case, g):
         A = gens.values(modes, dt, 'gauss', g)
     elif kind == 'zero':
         A = torch.zeros(modes, dtype=dt)
+    elif kind == 'noisy':
+        rs = case['rs']
+        sig = dn.dense_of_cores(gens.make_cores(modes, [1] + [rs] * (d - 1) + [1], dn.up(dt), 'gauss', g))
+        noise = gens.values(modes, dn.up(dt), 'gauss', g)
+        rel = 3e-3 if dt != torch.float32 else 2e-2
+        A = (sig + rel * dn.fro(sig) / dn.fro(noise) * noise).to(dt)
+        case['_noise_rel'] = float(rel * dn.fro(sig) / dn.fro(A.to(dn.up(dt))))
     elif kind == 'lowrank':
         rr = random.Random(case['seed'])
         R = [1] + [rr.randint(1, 3) for _ in range(d - 1)] + [1]
@@ -266,6 +280,11 @@ def run_random(case, ctx, g):
     src, shape, modes = request(case, A)
     rr = random.Random(case['seed'] + 1)
     rmax = pick_rmax(case, modes, rr)
+    if case['kind'] == 'noisy':
+        cap = case['rs'] + case['cap_extra']
+        rmax = cap if case['rmax'] == 'int' else [1] + [cap] * (len(modes) - 1) + [1]
+        case = dict(case, eps=case['eps_over_noise'] * case['_noise_rel'])
+        ctx.count('structure:signal+flat-noise-tail')
     ctx.count('source:' + case['source'])
     ctx.count('shape:' + case['shape'])
     if rmax is not None:
